@@ -91,7 +91,7 @@ def parse(path):
                 if m:
                     attrs = _attrs(rest[m.start():])
                     rest = rest[:m.start()]
-                parts = [p.strip() for p in rest.split("::")]
+                parts = [p.strip() for p in re.split(r"\s::\s", rest)]
                 cur_item = {"relpath": parts[0], "steps": parts[1:], "edits": [],
                             "wrap": attrs.get("wrap"), "as": attrs.get("as")}
                 u["items"].append(cur_item)
